@@ -81,6 +81,49 @@ fn type_edge_targets(g: &ModuleGraph) -> BTreeSet<String> {
   out
 }
 
+/// graphs that carry fast check data - modules and, for packages with a slow type, diagnostics:
+/// pruning removes all of it
+fn fast_check_prune_part(report: &mut Report, rng: &mut Rng, n: usize) {
+  use crate::fc::*;
+  use crate::fcgen::*;
+  for i in 0..n {
+    let mut pr = rng.fork();
+    let mut pkg = crate::c09::gen_pkg(&mut pr, i);
+    if i % 2 == 0 {
+      // an exported function without a return type: the package gets diagnostics instead of modules
+      let d = Decl {
+        name: format!("slow{}", i),
+        exported: true,
+        is_default: false,
+        kind: DeclKind::Function { f: Fn { params: vec![], ret: None, is_async: false, is_gen: false, analysis: RetAnalysis::Single }, overloads: 0 },
+        sig_refs: vec![],
+        body_refs: vec![],
+        generics: String::new(),
+      };
+      pkg.files[0].items.insert(0, Item::Decl(d));
+    }
+    let w = crate::c09::world_of(&pkg);
+    for workspace in [false, true] {
+      let run = if workspace { run_fast_check_workspace(&w, None) } else { run_fast_check(&w, None, false) };
+      let with_modules = run.slots.values().filter(|s| matches!(s, FcSlot::Module { .. })).count();
+      let with_diags = run.slots.values().filter(|s| matches!(s, FcSlot::Diagnostics(_))).count();
+      report.evaluations += 1;
+      let mut pruned = run.graph.clone();
+      pruned.prune_types();
+      let left: Vec<String> = pruned.modules().filter_map(|m| m.js()).filter(|js| js.fast_check.is_some()).map(|js| js.specifier.to_string()).collect();
+      if !left.is_empty() {
+        report.fail(
+          "oracle",
+          "pruned-keeps-types-dependency",
+          format!("after prune_types() {} module(s) still carry fast check data ({} had modules, {} had diagnostics before): {:?}", left.len(), with_modules, with_diags, left),
+          json!({"fast_check_world": w.describe(), "workspace_member": workspace}),
+        );
+      }
+      report.count(&format!("fast-check-then-prune:{}", if with_diags > 0 { "diagnostics" } else if with_modules > 0 { "modules" } else { "none" }));
+    }
+  }
+}
+
 pub fn run(tier: &str, seed: u64) -> Report {
   let mut report = Report::new("C17");
   report.rule = "generated worlds (as C01, same-type-attribute proviso enforced for the oracle) built with all dependency \
@@ -98,6 +141,25 @@ pub fn run(tier: &str, seed: u64) -> Report {
     let mut wr = rng.fork();
     let mut w = gen_world(&mut wr, &cfg);
     w.kind = if wi % 6 == 5 { GraphKind::TypesOnly } else { GraphKind::All };
+    // type sides that do not resolve at all (a bare specifier): pruning removes those as well
+    if wi % 3 == 1 {
+      let specs = w.specs.clone();
+      for (i, r) in w.resp.iter_mut().enumerate() {
+        if let Resp::Module { items, final_spec, .. } = r {
+          if *final_spec != i {
+            continue;
+          }
+          let ext = ext_of(&specs[i]);
+          if is_typed_ext(&ext) && wr.chance(1, 2) {
+            items.push(Item { form: Form::ImportType, text: "not-resolvable-types".into() });
+          } else if is_js_like_ext(&ext) && wr.chance(1, 3) {
+            if let Some(t) = specs.iter().find(|t| is_js_like_ext(&ext_of(t)) && **t != specs[i]) {
+              items.push(Item { form: Form::TsTypes("not-resolvable-pragma".into()), text: t.as_str().to_string() });
+            }
+          }
+        }
+      }
+    }
     let desc = json!({"world": w.describe(), "world_index": wi});
     batch.descs.push(desc.clone());
     let mut ctx = Ctx::default();
@@ -275,6 +337,7 @@ pub fn run(tier: &str, seed: u64) -> Report {
     report.nontrivial.insert(format!("b{}a{}t{}", before.min(12), after.min(12), type_targets.len().min(6)));
     report.count(&format!("entries-removed-by-prune:{}", (before - after.min(before)).min(6)));
   }
+  fast_check_prune_part(&mut report, &mut rng, if tier == "thorough" { 1000 } else { 120 });
   batch.finish(&mut report, "C17");
   report
 }
